@@ -145,7 +145,50 @@ def w12_merged_objects_are_writable(prog, ctx):
                                what="placement of group-less keys by the merge")
 
 
+def w2b_bracket_helpers(prog, ctx, rule="W2"):
+    """W2 (continued): a section name counts as "already in brackets" only when it starts with '[' AND ends with ']': addbrackets() hands
+    such a name back as it is and wraps every other, stripbrackets() unwraps only such a name.  With `||` a name like `array[0]` is
+    written without its header brackets - as a key line - and the section is gone when the file is read back."""
+    def shape(e, neg=False):
+        """('and'|'or', negated?) of the test that combines the '[' and the ']' comparison, None if it is not such a test"""
+        e0 = e.strip()
+        if e0.k == "UnaryOperator" and e0.j.get("op") == "!":
+            return shape(e0.children[0], not neg)
+        if e0.k == "BinaryOperator" and e0.j.get("op") in ("&&", "||"):
+            sides = [e0.children[0].strip(), e0.children[1].strip()]
+            inner_neg = [x.k == "UnaryOperator" and x.j.get("op") == "!" for x in sides] + ["!=" in render(x) for x in sides]
+            t = render(e0)
+            if "'['" in t and "']'" in t:
+                all_neg = all(("!=" in render(x)) or (x.k == "UnaryOperator" and x.j.get("op") == "!") for x in sides)
+                op = "and" if e0.j["op"] == "&&" else "or"
+                if all_neg:            # !A || !B  ==  !(A && B)
+                    op = "or" if op == "and" else "and"
+                    neg = not neg
+                return (op, neg)
+        return None
+    for fname in ("addbrackets", "stripbrackets"):
+        if not prog.has_fn(fname):
+            ctx.inconclusive(rule, "%s: bracketed means '[' first and ']' last" % fname, "", "anchor vanished")
+            continue
+        f = prog.fn(fname)
+        ctx.touch(f)
+        shapes = [(x, shape(x.child("cond"))) for x in f.walk() if x.k in ("IfStmt", "WhileStmt", "ConditionalOperator") and x.child("cond") is not None]
+        shapes = [(x, sh) for x, sh in shapes if sh is not None]
+        if len(shapes) != 1:
+            ctx.inconclusive(rule, "%s: bracketed means '[' first and ']' last" % fname, f.where, "%d tests that combine the two bracket comparisons" % len(shapes))
+            continue
+        x, (op, neg) = shapes[0]
+        if op == "and":
+            ctx.ok(rule, "%s: bracketed means '[' first and ']' last" % fname, x.where, "`%s`" % render(x.child("cond"))[:70])
+        else:
+            ctx.fail(rule, "%s: bracketed means '[' first and ']' last" % fname, x.where,
+                     "`%s`: a name with only one of the two brackets is treated as bracketed - `array[0]` / `[legacy` are %s" % (
+                         render(x.child("cond"))[:60], "written as a key line instead of a section header" if fname == "addbrackets" else "cut at a bracket that is not there"),
+                     key="bracket-test:%s" % fname)
+
+
 def run(prog, ctx):
+    w2b_bracket_helpers(prog, ctx)
     w8_w9(prog, ctx)
     w11_queries_leave_the_text(prog, ctx)
     w12_merged_objects_are_writable(prog, ctx)
